@@ -107,6 +107,15 @@ Theorem C13_completes : forall (progs : list lk_calls) s,
 Proof. exact (lk_cfg_completes lk_gen_cfg C13_config_ok). Qed.
 Print Assumptions C13_completes.
 
+(* every maximal execution ends with all calls completed and the lock released: a state in
+   which no thread can move is a state in which all threads have returned *)
+Theorem C13_quiescent_is_done : forall (progs : list (list lk_op)),
+  Forall (fun p => lk_wfprog p = true) progs -> forall s,
+  lk_reach (lk_init progs) s -> (forall i, lk_step i s = None) ->
+  lk_all_doneb s = true /\ lk_l s = lk_lock0.
+Proof. exact lk_quiescent_is_done. Qed.
+Print Assumptions C13_quiescent_is_done.
+
 (* "no thread blocks forever once the others return" *)
 Theorem C13_last_thread_runs : forall (progs : list lk_calls) s i o rest,
   lk_reach (lk_init (map (lk_flat lk_gen_cfg) progs)) s ->
